@@ -162,8 +162,11 @@ def type_sensitive_rule(g, rg, doc):
     k = g.r.random()
     if k < 0.5:
         cond = Leaf("ValueDataType", g.r.choice(["equal_to", "not_equal_to"]), [PathT([Prim(x) for x in path], ["dtype"])])
-    elif k < 0.8:
-        cond = Leaf("Value", g.r.choice(["in_range", "not_in_range"]), [], {"lower": PathT([Prim(x) for x in path]), "upper": int(val) + g.r.randint(1, 5)})
+    elif k < 0.8 and isinstance(doc, dict) and abs(val) < 10 ** 6:
+        # (the bound sits under a planted key, absent from every other document the rule is tried on: a range bound picked up in an
+        # unrelated document could be astronomically large, and `x in range(lo, hi)` scans the range for a non-integer x)
+        doc["_num"] = val
+        cond = Leaf("Value", g.r.choice(["in_range", "not_in_range"]), [], {"lower": PathT([Prim("_num")]), "upper": int(val) + g.r.randint(1, 5)})
     else:
         cond = Leaf("Value", "equal_to", [PathT([Prim(x) for x in path], ["dtype"])])
     if g.r.random() < 0.3:
